@@ -39,6 +39,16 @@ both tiers.
    writer raises NotImplementedError are outside the claim (counted); every other one must read back
    the same `chart.chart_type` live and after save + re-open.
 
+4. ADJUSTMENT-DEFAULT HISTORIES (depth 2, run in ONE process — the parent — so that class-level caches would
+   show).  For every auto-shape type with adjustments and every adjustment index i:
+   (set)    shape 1 of type T is added and gets adjustments[i] = one non-default value; afterwards shape 2 of
+            type T is added to the same slide and shape 3 of type T to another, long-lived presentation;
+   (loaded) a deck whose slide holds shapes of type T with explicit a:gd guides (written into the saved slide
+            XML by this harness with bare lxml; index i non-default) is opened and .adjustments of shape i is
+            read; afterwards fresh shapes of type T are added to that deck and to the other presentation.
+   Every freshly added shape (empty a:avLst) must still read the table's defaults / 100000.  A final sweep adds
+   every auto-shape type once more after all histories (leaks across types).
+
 Signatures: C20|<rule>|<Enum>.<MEMBER>|...
 """
 
@@ -61,9 +71,12 @@ LEVEL = "exploration"
 RULE = ("every member of every BaseXmlEnum subclass in pptx/enum/*.py (run-time __members__ and module AST, "
         "aliases included); every MSO_AUTO_SHAPE_TYPE member against autoshape_types, presetShapeDefinitions.xml "
         "and an add_shape/save/re-open read-back; every MSO_CONNECTOR_TYPE member through add_connector; every "
-        "XL_CHART_TYPE member x series count 1..3 x point count 1..3 through add_chart/save/re-open. A case is "
+        "XL_CHART_TYPE member x series count 1..3 x point count 1..3 through add_chart/save/re-open; every "
+        "two-shape history (first shape of type T with adjustment i set / loaded with explicit guides, then a fresh "
+        "shape of type T) for every type T and every adjustment index i, all in one process. A case is "
         "non-trivial when it exercises a member that has an xml token (enum cases), a distinct shape type (preset "
-        "and shape cases) or a chart type the writer accepts (chart cases); distinct by (kind, enum, member[, n, m]).")
+        "and shape cases), a chart type the writer accepts (chart cases) or a (type, index, first-shape kind) history whose "
+        "first shape really shows the non-default value; distinct by (kind, enum, member[, n, m]).")
 ASSUMPTIONS = [
     "the standard is the copy shipped in $VERIF_REPO/spec: transitional XSDs (ISO-IEC-29500-4/xsd) and "
     "ISO-IEC-29500-1 presetShapeDefinitions.xml, read with bare lxml",
@@ -560,6 +573,149 @@ def case_chart(name, nser, npts, part=None):
     return "ok", out
 
 
+# ---- adjustment-default histories (class-level caches) ------------------------------------------------
+
+NONDEFAULT_DELTA = 1234   # raw units added to the default of the adjustment under test
+
+_OTHER = {}
+
+
+def _other_slide():
+    """A long-lived second presentation of this process: fresh shapes are also added here."""
+    if "slide" not in _OTHER or _OTHER.get("pid") != os.getpid():
+        prs, slide = _new_slide()
+        _OTHER.update(prs=prs, slide=slide, pid=os.getpid())
+    return _OTHER["slide"]
+
+
+def _table_row(name):
+    from pptx.enum.shapes import MSO_AUTO_SHAPE_TYPE as E
+    from pptx.spec import autoshape_types
+    m = E.__members__[name]
+    row = autoshape_types.get(m)
+    return m, (tuple((str(n), int(v)) for n, v in row["avLst"]) if row is not None else ())
+
+
+def _fresh_reads_defaults(slide, m, av, where):
+    """Add a fresh shape of type m to `slide`; return a failure description or None."""
+    exp = [v / 100000.0 for _, v in av]
+    sh = slide.shapes.add_shape(m, 914400, 914400, 914400, 914400)
+    got = [sh.adjustments[i] for i in range(len(sh.adjustments))]
+    if got != exp:
+        return "fresh shape added to %s reads adjustments %r, table defaults normalised %r" % (where, got, exp)
+    return None
+
+
+def _deck_with_guides(m, av):
+    """Bytes of a deck whose only slide holds len(av) shapes of type m; shape k carries explicit a:gd guides for
+    all adjustments, the k-th one non-default. The guides are written by this harness (bare lxml + own zip writer)."""
+    from mc.drivers.fixtures import write_zip, zip_members
+    prs, slide = _new_slide()
+    for _ in av:
+        slide.shapes.add_shape(m, 914400, 914400, 914400, 914400)
+    buf = io.BytesIO()
+    prs.save(buf)
+    members = zip_members(buf.getvalue())
+    sname = sorted(n for n in members if n.startswith("ppt/slides/slide") and n.endswith(".xml"))[0]
+    root = etree.fromstring(members[sname])
+    sps = list(root.iter("{%s}sp" % NS_P))
+    if len(sps) != len(av):
+        raise HarnessError("guides deck: %d p:sp for %d shapes" % (len(sps), len(av)))
+    for k, sp in enumerate(sps):
+        geom = next(sp.iter("{%s}prstGeom" % NS_A))
+        avl = geom.find("{%s}avLst" % NS_A)
+        if avl is None:
+            avl = etree.SubElement(geom, "{%s}avLst" % NS_A)
+        for j, (gname, val) in enumerate(av):
+            gd = etree.SubElement(avl, "{%s}gd" % NS_A)
+            gd.set("name", gname)
+            gd.set("fmla", "val %d" % (val + NONDEFAULT_DELTA if j == k else val))
+    order = list(members)
+    members[sname] = etree.tostring(root, xml_declaration=True, encoding="UTF-8", standalone=True)
+    return write_zip(members, order)
+
+
+def case_history_set(name, i, part=None):
+    """Shape 1 of the type gets adjustments[i] = non-default; fresh shapes added afterwards read the defaults."""
+    m, av = _table_row(name)
+    q = "MSO_AUTO_SHAPE_TYPE.%s" % name
+    prs, slide = _new_slide()
+    first = slide.shapes.add_shape(m, 914400, 914400, 914400, 914400)
+    v = (av[i][1] + NONDEFAULT_DELTA) / 100000.0
+    first.adjustments[i] = v
+    took = first.adjustments[i] != av[i][1] / 100000.0
+    if part is not None:
+        part.outcome("history.first-shape-shows-nondefault", "set:%s" % took)
+        if took:
+            part.add("nontrivial", ("history", "set", name, i))
+    for sl, where in ((slide, "the same slide"), (_other_slide(), "another presentation")):
+        msg = _fresh_reads_defaults(sl, m, av, where)
+        if msg:
+            return [("C20|adj-history|%s|first=set" % q,
+                     "after a %s had adjustments[%d] set to %r: %s" % (q, i, v, msg))]
+    return []
+
+
+def case_history_loaded(name, i, part=None, deck=None):
+    """Shape i of a loaded deck carries explicit guides (index i non-default); fresh shapes added after its
+    .adjustments were read still read the defaults."""
+    from pptx import Presentation
+    m, av = _table_row(name)
+    q = "MSO_AUTO_SHAPE_TYPE.%s" % name
+    blob = deck if deck is not None else _deck_with_guides(m, av)
+    prs = Presentation(io.BytesIO(blob))
+    slide = prs.slides[0]
+    loaded = list(slide.shapes)[i]
+    got = [loaded.adjustments[k] for k in range(len(loaded.adjustments))]
+    took = len(got) > i and got[i] == (av[i][1] + NONDEFAULT_DELTA) / 100000.0
+    if part is not None:
+        part.outcome("history.first-shape-shows-nondefault", "loaded:%s" % took)
+        if took:
+            part.add("nontrivial", ("history", "loaded", name, i))
+    for sl, where in ((slide, "the loaded slide"), (_other_slide(), "another presentation")):
+        msg = _fresh_reads_defaults(sl, m, av, where)
+        if msg:
+            return [("C20|adj-history|%s|first=loaded" % q,
+                     "after a loaded %s with explicit guides (adjustment %d = %d) had its adjustments read (%r): %s"
+                     % (q, i, av[i][1] + NONDEFAULT_DELTA, got, msg))]
+    return []
+
+
+def case_history_sweep(name):
+    m, av = _table_row(name)
+    msg = _fresh_reads_defaults(_other_slide(), m, av, "another presentation")
+    if msg:
+        return [("C20|adj-history|MSO_AUTO_SHAPE_TYPE.%s|first=other-types" % name,
+                 "after the histories of all auto-shape types: %s" % msg)]
+    return []
+
+
+def run_histories(part, names, emit=True):
+    """The whole family, in this process, fixed order inside a type (set 0..n-1, loaded 0..n-1). Returns the
+    names that failed their own history."""
+    failed = set()
+    for name in names:
+        m, av = _table_row(name)
+        if not av:
+            continue
+        deck = None
+        for kind in ("set", "loaded"):
+            for i in range(len(av)):
+                part.count("evaluations")
+                part.count("adjustment_history_cases")
+                if kind == "set":
+                    fails = case_history_set(name, i, part)
+                else:
+                    if deck is None:
+                        deck = _deck_with_guides(m, av)
+                    fails = case_history_loaded(name, i, part, deck)
+                if fails:
+                    failed.add(name)
+                if emit:
+                    _emit(part, fails, {"kind": "history", "first": kind, "member": name, "index": i})
+    return failed
+
+
 # ---- workers ------------------------------------------------------------------------------------------
 
 def _emit(part, fails, data):
@@ -721,9 +877,26 @@ def run(ctx):
     ctx.extra.update(chart_types=len(chart_names), chart_types_writable_names=sorted(writable))
     ctx.sample({"chart": "PIE", "series": 2, "points": 3, "expected_chart_type": "PIE"})
 
+    # -- 4. two-shape histories, all in this (parent) process ---------------------------------------------
+    failed = run_histories(ctx, ctx.rotate(shapes))
+    for name in sorted(shapes):
+        ctx.count("evaluations")
+        ctx.count("adjustment_history_sweep")
+        fails = case_history_sweep(name)
+        if name not in failed:   # a type that failed its own history is already reported (and stays polluted)
+            _emit(ctx, fails, {"kind": "history", "first": "other-types", "member": name, "index": -1})
+    n_hist = sum(2 * len(_table_row(n)[1]) for n in shapes)
+    shown = ctx.outcomes.get("history.first-shape-shows-nondefault", set())
+    if not {"set:True", "loaded:True"} <= shown:
+        raise HarnessError("history family vacuous: first shapes never showed the non-default value (%s)" % sorted(shown))
+    ctx.extra.update(adjustment_history_types=sum(1 for n in shapes if _table_row(n)[1]),
+                     adjustment_history_cases_closed_form=n_hist)
+    ctx.sample({"history": "set", "type": "ROUNDED_RECTANGLE", "index": 0,
+                "first_shape_value": (16667 + NONDEFAULT_DELTA) / 100000.0, "fresh_shape_must_read": [0.16667]})
+
     # -- closed form ------------------------------------------------------------------------------------
     n_conn = sum(1 for m in MSO_CONNECTOR_TYPE if m.xml_value)
-    expect = (2 * len(enums) + n_xml + n_exempt) + 2 * len(shapes) + n_conn + n_chart_cases
+    expect = (2 * len(enums) + n_xml + n_exempt) + 2 * len(shapes) + n_conn + n_chart_cases + n_hist + len(shapes)
     if ctx.counters["evaluations"] != expect:
         raise HarnessError("evaluations %d != closed form %d" % (ctx.counters["evaluations"], expect))
     ctx.extra["closed_form_size"] = expect
@@ -747,6 +920,17 @@ def replay(data):
         fails = case_connector(data["member"])
     elif k == "chart":
         fails = case_chart(data["member"], data["nser"], data["npts"])[1]
+    elif k == "history":
+        if data["first"] == "set":
+            fails = case_history_set(data["member"], data["index"])
+        elif data["first"] == "loaded":
+            fails = case_history_loaded(data["member"], data["index"])
+        else:
+            # a leak across types needs the whole family as its history
+            from pptx.enum.shapes import MSO_AUTO_SHAPE_TYPE
+            from mc.core.run import Partial
+            run_histories(Partial(), [m.name for m in MSO_AUTO_SHAPE_TYPE], emit=False)
+            fails = case_history_sweep(data["member"])
     else:
         raise ValueError(k)
     want = data.get("sig")
